@@ -29,7 +29,7 @@ func (*c09) CoqImport() string {
 
 func (*c09) Rule() string {
 	return "a sequential prefix (nothing / install / install+upgrade) then 2 or 3 concurrent real install/upgrade operations on the same release " +
-		"(flags atomic/cleanup-on-fail/no-hooks, sometimes max-history or --replace; 1-3 resource charts, 0-1 hooks) on memory/Secret/ConfigMap storage, " +
+		"(flags atomic/cleanup-on-fail/no-hooks, sometimes --replace; 1-3 resource charts, 0-1 hooks) on memory/Secret/ConfigMap storage, " +
 		"sometimes one rejected mutating cluster request; replayed under a gate schedule: corpus witnesses, enumerated interleavings of the base scenarios (quick: sampled; thorough: all two-operation " +
 		"interleavings, three operations with <= 2 preemptions) and uniformly drawn interleavings of generated scenarios; " +
 		"non-trivial = the effective schedule switches operation at least twice while both are still running; distinct = hash of (case, observation)"
@@ -172,6 +172,9 @@ func (*c09) Corpus() []any {
 		out = append(out, base[1].mk(b, []int{1, 0, 0, 0, 0}))
 		out = append(out, base[1].mk(b, []int{0, 0, 1, 0, 0}))
 		out = append(out, base[9].mk(b, []int{0, 1, 0, 1, 0, 1, 0, 1, 0, 1}))
+		// K1 (C01) seen through C09: install --replace when the last revision is failed and an older one is deployed
+		out = append(out, conc.Case{Backend: b, Pre: c9preOf(-1), Note: "K1 install --replace over a failed last revision",
+			Ops: []eng.Op{c9op("install", 10, eng.Flags{Replace: true}, "a"), c9op("upgrade", 11, eng.Flags{}, "a")}, Sched: []int{0, 0, 0, 0, 0, 0, 0}})
 		// K-C09-2: the automatic rollback of a failed --atomic upgrade races the other upgrade
 		out = append(out, base[7].mk(b, []int{0, 0, 0, 0, 0, 1, 0, 1, 1, 1, 0, 0, 1, 0, 0, 0, 0, 0}))
 	}
@@ -190,7 +193,9 @@ func (*c09) Exhaustive(tier string) []any {
 					if b != "secret" {
 						continue
 					}
-					all = conc.Sample(r, all, 3000)
+					all = conc.Sample(r, all, 2000)
+				} else if len(all) > 600 && b == "configmap" { // ConfigMaps share the code path of Secrets
+					continue
 				}
 				for _, sch := range all {
 					out = append(out, s.mk(b, sch))
@@ -250,9 +255,9 @@ func (*c09) Generate(r *rand.Rand, i int) any {
 		f.Atomic = r.Intn(5) == 0
 		f.Cleanup = r.Intn(5) == 0
 		f.NoHooks = r.Intn(8) == 0
-		if kind == "upgrade" && r.Intn(10) == 0 {
-			f.MaxHistory = 1 + r.Intn(3)
-		}
+		// no history pruning among the concurrent operations: outside the quantifier of C09, and the
+		// shared model classifies a final Update that finds its record pruned away as "other"
+		// where Helm returns "release: not found" (reported to the owner of Engine/Ops.v)
 		if kind == "install" && r.Intn(12) == 0 {
 			f.Replace = true
 		}
@@ -429,7 +434,15 @@ func (*c09) Oracle(ci, oi any) []hx.Violation {
 				atomicUp = true
 			}
 		}
+		failedLast := false
+		if n := len(o.Pre.Steps); n > 0 {
+			if l := o.Pre.Steps[n-1].Ledger; len(l) > 1 && l[len(l)-1].Status == "failed" {
+				failedLast = true
+			}
+		}
 		switch {
+		case replace && failedLast:
+			sig = "C09:two-deployed-install-replace-over-failed-last" // = K1 of C01, sequential
 		case replace && startEmpty:
 			sig = "C09:two-deployed-install-replace-races-install" // K-C09-1
 		case atomicUp && c9hasFault(c):
